@@ -917,7 +917,12 @@ def evaluate(case, stats):
                         continue
                     rec, problem = parse_surrogate_call(sb)
                     if rec is None:
-                        structure.append(problem)
+                        if not any(e[0] == "fit" for e in sb["ev"]) and any(e[0] == "predict" for e in sb["ev"]):
+                            # the property itself: "a surrogate sampler trains on exactly the given history"
+                            fails.append(f"fit: {kind}: sample_batch ranked the pool without training the surrogate on the given history "
+                                         f"(fit not called in sample() #{c})")
+                        else:
+                            structure.append(problem)
                         continue
                     nanp = bool(np.isnan(np.asarray(rec["preds"]).astype(float)).any())
                     f = oracle_surrogate_call(case, call, rec)
